@@ -26,11 +26,13 @@ class ColumnControlConstructionTokenTranslator(AbstractTranslator):
             if token.matrix.matrix[0].column == token.matrix.matrix[-1].column:
                 return str(token.matrix.matrix[0].column + 1)
 
+            own_column = token.in_cell.column
             for i in range(token.matrix.matrix[0].column + 1, token.matrix.matrix[-1].column + 2):
                 # The only way to set multiple cells while parsing single token
                 context.set_cell(token.in_cell, str(i))
                 token.in_cell.column += 1
-            token.in_cell.column = token.matrix.matrix[0].column + 1
-            return context.set_sub_cell(token.in_cell, str(token.in_cell.column))
+            # back to the formula's own cell (it holds the number of the first column of the area)
+            token.in_cell.column = own_column
+            return context.set_sub_cell(token.in_cell, str(token.matrix.matrix[0].column + 1))
         else:
             return str(token.in_cell.column + 1)
